@@ -55,6 +55,9 @@ def run(ctx):
         rs = np.random.RandomState(it)
         s = (rs.randn(npol, n) + 1j * rs.randn(npol, n)) * 1e-2 + 0.02
         nz = (rs.randn(npol, n) + 1j * rs.randn(npol, n)) * 2e-3 if noisy else None
+        if it % 5 == 2:          # real-valued (float dtype) field and noise
+            s = np.abs(s.real) + 0.01
+            nz = None if nz is None else nz.real.copy()
         x = optical_signal(s if npol == 2 else s[0], None if nz is None else (nz if npol == 2 else nz[0]))
         for a in (x.signal, x.noise):
             if a is not None:
